@@ -167,6 +167,11 @@ let handle line =
   | "P" ->
       let v = next_str c in
       step (setver_drv !vans !world v)
+  | "X" ->
+      (* leave the session and enter it again: step_op _ OReconnect *)
+      let (w, _), _ = step_op_drv !batans !vans !now !world OReconnect in
+      world := w;
+      print_str (show_world !world)
   | "N" ->
       let id = next_z c in
       let typ = next_z c in
